@@ -535,8 +535,17 @@ func intsEqual(a, b []int) bool {
 // without session / with the unset session, for a session that is not
 // correlated at that point, and strays carry only the ended session's identity.
 func oracleC04(ct corrTrace) error {
-	correlated := map[int]bool{} // sessions the model has bound so far (incl. ended)
+	// sessions whose LOGIN record was seen and for whose pid an SSH login has
+	// arrived by now — computed WITHOUT the cleanup calls, so that what cleanup
+	// must discard (C16's concern) is not judged here
+	correlated := map[int]bool{}
+	noClean := newCorrModel()
 	for i, st := range ct.Steps {
+		if ct.H.Ops[i].K != "clean" {
+			for _, e := range noClean.step(i, ct.H.Ops[i], ct.H.Ops) {
+				correlated[e.Ses] = true
+			}
+		}
 		for _, e := range st.Model {
 			correlated[e.Ses] = true
 		}
